@@ -72,12 +72,14 @@ def state_class(built):
 
 
 HOWS = {"shift": "translated", "indep": "independent", "rowsonly": "rows-only-changed", "prefix": "a strict prefix of the",
-        "extension": "a strict extension of the"}
+        "extension": "a strict extension of the", "mirror": "mirror-topology"}
 
 
 def key_of(built, e, clause, alt, alt_ev=None):
     t = built["type"]
     sc = state_class(built)
+    if clause == "DeFails" and e.get("fmt") in ("json", "jsonperm") and built.get("jdepth", 0) > 127:
+        return "json: serialised form nested deeper than serde_json's 128-level recursion limit (%s)" % t
     if clause == "EqOther" and (sc == "NaN" or (alt_ev is not None and state_class(alt_ev) == "NaN")):
         return "eq: NaN-blind ==, a %s whose state contains NaN equals a different model" % t
     if clause in ("DeFails", "SerFails") and e.get("fmt") in ("json", "jsonperm") and sc:
